@@ -204,7 +204,7 @@ func (c *Canonicalizer) normalizeInductionVariablesRecursive(loops []*loop.Loop,
 		for phi, iv := range l.Inductions {
 			if iv.Type == loop.IVTypeBasic {
 				c.VirtualizedInstrs[phi] = true
-				scev := &loop.SCEVAddRec{Start: iv.Start, Step: iv.Step, Loop: l}
+				scev := &loop.SCEVAddRec{Start: iv.Start, Step: iv.Step, Loop: l, VarType: phi.Type()}
 				c.virtualSubstitutions[phi] = scev
 			}
 		}
